@@ -9,9 +9,26 @@ from .core import Stats
 _FUNC = None
 
 
+def crash_stats(func, e):
+    """An exception that escaped a worker (the checks catch what they expect): reported as a violation of the
+    check's property rather than as a crash of the check, with the library call site in the signature."""
+    from .core import exc_site, exc_text
+
+    prop = func.__module__.rsplit(".", 1)[-1].upper()
+    st = Stats()
+    st.inc("states")
+    st.inc("transitions")
+    st.violation(f"{prop}/unhandled-exception/{exc_site(e)}/{type(e).__name__}",
+                 f"unexpected exception while exploring: {exc_text(e)}", {"unhandled": True, "error": exc_text(e)})
+    return st
+
+
 def _call(arg):
     idx, item = arg
-    return idx, _FUNC(item)
+    try:
+        return idx, _FUNC(item)
+    except Exception as e:  # noqa: BLE001
+        return idx, crash_stats(_FUNC, e)
 
 
 def run_shards(func, items, nproc: int) -> Stats:
@@ -23,7 +40,10 @@ def run_shards(func, items, nproc: int) -> Stats:
         return total
     if nproc <= 1 or len(items) == 1:
         for it in items:
-            total.merge(func(it))
+            try:
+                total.merge(func(it))
+            except Exception as e:  # noqa: BLE001
+                total.merge(crash_stats(func, e))
         return total
     _FUNC = func
     ctx = mp.get_context("fork")
